@@ -291,8 +291,10 @@ type cityGen struct {
 	rc           *RC
 	uniqueValues bool
 	trickyValues bool
-	valueCounter int
-	inBase       bool
+	// mixedCollectionKeys: collections may also have string / number keys
+	mixedCollectionKeys bool
+	valueCounter        int
+	inBase              bool
 	// the compact builder does not store collection features at all
 	noBaseCollections bool
 	// areas may mix path-based and explicit polygons (never for compact)
@@ -526,6 +528,14 @@ func (g *cityGen) collectionSpec(id b6.FeatureID) *fspec {
 			s.CKeys = append(s.CKeys, pointID(rc.Draw(maxPoints)))
 		}
 		s.CVals = append(s.CVals, fmt.Sprintf("c%d", i))
+	}
+	if g.mixedCollectionKeys && rc.Pct(40) {
+		// keys of other kinds next to the feature ids (lookups by key must
+		// still find them)
+		for k := rc.Range(1, 2); k > 0; k-- {
+			s.CKeys = append(s.CKeys, []any{"total", 7, 2.5, "a b"}[rc.Draw(4)])
+			s.CVals = append(s.CVals, []any{"sum", 12, "x"}[rc.Draw(3)])
+		}
 	}
 	return s
 }
